@@ -184,7 +184,7 @@ def W_spec(M, Y, alpha, method):
     return mul(COLP(V, m), mul(D, mul(ROWP(Ut, m), Y)))
 RCOND = [None]
 
-def u_fit(method, atype, cv_given=False):
+def u_fit(method, atype, cv_given=False, parallel=False):
     def body(I):
         n, m, p, na = I.fresh('n', IntS), I.fresh('m', IntS), I.fresh('p', IntS), I.fresh('n_alphas', IntS)
         I.assume(And(n >= 2, m >= 1, p >= 1, na >= 1, EPS > 0))
@@ -202,7 +202,10 @@ def u_fit(method, atype, cv_given=False):
         cls = I.repo.get(R2)
         shuffle = I.fresh('shuffle', BoolS); rs = I.fresh('random_state', IntS)
         cvobj = skstubs.StubObj(kind='user-cv') if cv_given else None
-        me = I.instantiate(cls, [], dict(alphas=alphas, alpha_type=atype, regularization_method=method, cv=cvobj, scoring='r2', random_state=rs, shuffle=shuffle, n_jobs=None))
+        nj = None
+        if parallel:
+            nj = I.fresh('n_jobs', IntS); I.assume(nj >= 2)          # any number of workers: the values must not depend on it
+        me = I.instantiate(cls, [], dict(alphas=alphas, alpha_type=atype, regularization_method=method, cv=cvobj, scoring='r2', random_state=rs, shuffle=shuffle, n_jobs=nj))
         r = I.call_func(I.find_method(cls, 'fit'), [me, X, Y], {})
         I.ob('post[C09]:fit-returns-self', BoolVal(isinstance(r, ObjRef) and r.id == me.id), kind='post')
         o = I.O(me)
@@ -262,7 +265,8 @@ def u_fit(method, atype, cv_given=False):
                                   ('...and-so-is-its-square', x0 * x0 > 0)]:
                         I.ob('step:' + nm, h, kind='lemma'); I.assume(h)
                     sq0 = I.fresh('sq0', RealS); I.assume(sq0 == x0 * x0)                         # name for the square
-                    I.ob('step:...and-the-Tikhonov-denominator', sq0 + ab_ > 0, kind='lemma'); I.assume(sq0 + ab_ > 0)
+                    I.ob('step:...the-named-square-is-positive', sq0 > 0, kind='lemma'); I.assume(sq0 > 0)
+                    I.ob('step:...and-the-Tikhonov-denominator', sq0 + ab_ > 0, kind='lemma', using=[sq0 > 0, ab_ >= 0]); I.assume(sq0 + ab_ > 0)
                     I.assume(y0 == sq0 + ab_); I.ob('step:...named-or-not', y0 > 0, kind='lemma'); I.assume(y0 > 0)                                   # y0 is sq0 + alpha by the definition of sq0
                     I.assume(Implies(y0 > 0, x0 * (1 / y0) == x0 / y0))                         # lemma[C10] x * (1/y) = x / y for y > 0 (proved in the lemma unit), at x0, y0
                     h = Lfg[i0] == Lsp[i0]
@@ -275,7 +279,7 @@ def u_fit(method, atype, cv_given=False):
         Xq = ML.fresh_mat(I, 'Xq', (I.fresh('nq', IntS), m))
         P = I.call_func(I.find_method(cls, 'predict'), [me, Xq], {})
         I.ob('post[C10]:predict-is-X-times-the-coefficients', ML.mat_of(I, P) == mul(ML.mat_of(I, Xq), T(C)), kind='post')
-    return Unit(f'Ridge2FoldCV[{method},{atype}{",cv-given" if cv_given else ""}]', body, functions=[R2 + '.fit', R2 + '._2fold_cv', R2 + '.predict', R2 + '.__init__'])
+    return Unit(f'Ridge2FoldCV[{method},{atype}{",cv-given" if cv_given else ""}{",n_jobs>=2" if parallel else ""}]', body, functions=[R2 + '.fit', R2 + '._2fold_cv', R2 + '.predict', R2 + '.__init__'])
 
 def u_reject(what):
     def body(I):
@@ -298,7 +302,7 @@ def u_lemma():
     return Unit('lemmas[reciprocal]', body, functions=[])
 
 UNITS = [lambda: u_lemma(), lambda: u_fit('tikhonov', 'absolute'), lambda: u_fit('tikhonov', 'relative'), lambda: u_fit('cutoff', 'absolute'), lambda: u_fit('cutoff', 'relative'),
-         lambda: u_fit('tikhonov', 'absolute', True), lambda: u_reject('method'), lambda: u_reject('alpha_type')]
+         lambda: u_fit('tikhonov', 'absolute', True), lambda: u_fit('tikhonov', 'relative', False, True), lambda: u_fit('cutoff', 'relative', False, True), lambda: u_reject('method'), lambda: u_reject('alpha_type')]
 RT = True
 TRUSTED = ["matrix layer (ring laws), prefix operators ROWP/COLP (first n rows / columns) with their product/transposition laws, diagonal scaling DG(f, n) with DG-product law",
            "thin SVD contract: factors SVU/SVS/SVVT as functions of the matrix, singular values non-negative and non-increasing, so that sum(s > t) is the length CNT(M, t) of the prefix above t and np.max(s) = s[0]",
